@@ -197,7 +197,7 @@ fn sample_values<S: Strategy>(strategy: S, n: usize, seed: u64) -> Vec<S::Value>
 pub fn corpus_for(target: &str, n: usize) -> Vec<Vec<u8>> {
     let mut out = generated_corpus(target, n);
     // Committed inputs (earlier fuzzer discoveries), named fuzz-<target>-<hash>.
-    if let Ok(rd) = std::fs::read_dir(format!("{VERIF_DIR}/corpus")) {
+    if let Ok(rd) = std::fs::read_dir(format!("{}/corpus", verif_dir())) {
         let mut files: Vec<_> = rd.filter_map(|e| e.ok()).map(|e| e.path()).filter(|p| p.file_name().map(|n| n.to_string_lossy().contains(target)).unwrap_or(false)).collect();
         files.sort();
         for f in files {
@@ -263,7 +263,7 @@ pub fn corpus_replay(ctx: &Ctx, targets: &[&str], n: usize) -> SubResult {
 /// toolchain or build failure is recorded, not a verdict.
 pub fn campaign(ctx: &Ctx, target: &str, runs: u64, max_len: usize) -> SubResult {
     let mut res = SubResult { sub: format!("libfuzzer-{target}"), ..Default::default() };
-    let work = PathBuf::from(format!("{VERIF_DIR}/target/fuzz-work/{}-{target}-{}", ctx.prop, std::process::id()));
+    let work = PathBuf::from(format!("{}/target/fuzz-work/{}-{target}-{}", verif_dir(), ctx.prop, std::process::id()));
     let corpus = work.join("corpus");
     let artifacts = work.join("artifacts");
     let _ = std::fs::remove_dir_all(&work);
@@ -276,10 +276,10 @@ pub fn campaign(ctx: &Ctx, target: &str, runs: u64, max_len: usize) -> SubResult
     }
     let seed = if ctx.seed == 0 { 1 } else { ctx.seed % 0x7FFF_FFFF };
     let out = Command::new("cargo")
-        .current_dir(format!("{VERIF_DIR}/harness"))
+        .current_dir(format!("{}/harness", verif_dir()))
         .env("RUSTUP_TOOLCHAIN", "nightly")
         .env("CARGO_NET_OFFLINE", "true")
-        .args(["fuzz", "run", "--fuzz-dir", &format!("{VERIF_DIR}/fuzz"), target])
+        .args(["fuzz", "run", "--fuzz-dir", &format!("{}/fuzz", verif_dir()), target])
         .arg(&corpus)
         .arg("--")
         .arg(format!("-artifact_prefix={}/", artifacts.display()))
